@@ -82,6 +82,73 @@ theorem height_switch_roundtrip_fails :
   · decide
   · decide
 
+/-- **Across heights, main-net constants** (`GetCodecUpgradeHeight() = UpgradeCodecHeight`, no
+override, `TestMode = 0`): a value written at height `he` is read back at every later height `hd` up
+to *and including* the upgrade height (legacy bytes stay decodable at the boundary: that is what the
+amino-first branch at `height == UpgradeCodecHeight` is for), and a value written at or after the
+upgrade is read back at every later height.  Same proviso on amino as above. -/
+theorem height_switch_cross_roundtrip {α : Type}
+    (aE pE : α → Option Bytes) (aD pD : Bytes → Option α)
+    (ha : ∀ v b, aE v = some b → aD b = some v) (hp : ∀ v b, pE v = some b → pD b = some v)
+    (he hd : Int) (h0 : 0 ≤ he) (hle : he ≤ hd)
+    (hdom : hd ≤ upgradeCodecHeight ∨ upgradeCodecHeight ≤ he) (v : α) (b : Bytes)
+    (hx : ∀ b', pE v = some b' → aD b' = none ∨ aD b' = some v)
+    (hm : marshalAt { upgradeHeight := upgradeCodecHeight } aE pE he v = some b) :
+    unmarshalAt { upgradeHeight := upgradeCodecHeight } aD pD hd b = some v := by
+  have hafter : ∀ h : Int, 0 ≤ h →
+      isAfterCodecUpgrade { upgradeHeight := upgradeCodecHeight } h = decide (upgradeCodecHeight ≤ h) := by
+    intro h hh
+    have : ¬ (h = -1) := by omega
+    simp [isAfterCodecUpgrade, this]
+  unfold marshalAt at hm
+  unfold unmarshalAt
+  rw [hafter he h0] at hm
+  rw [hafter hd (by omega)]
+  by_cases hwe : upgradeCodecHeight ≤ he
+  · -- proto bytes
+    have hwd : upgradeCodecHeight ≤ hd := by omega
+    simp only [hwe, hwd, decide_true, if_true] at hm ⊢
+    by_cases hh : hd = upgradeCodecHeight
+    · rw [if_pos hh]
+      rcases hx b hm with e | e
+      · rw [e]; exact hp v b hm
+      · rw [e]
+    · rw [if_neg hh]; exact hp v b hm
+  · -- amino bytes, hence hd ≤ upgrade height
+    have hdle : hd ≤ upgradeCodecHeight := by
+      rcases hdom with h | h
+      · exact h
+      · exact absurd h hwe
+    simp only [hwe, decide_false, if_false, Bool.false_eq_true] at hm
+    by_cases hwd : upgradeCodecHeight ≤ hd
+    · have hh : hd = upgradeCodecHeight := by omega
+      simp only [hwd, decide_true, if_true, hh]
+      rw [ha v b hm]
+      simp
+    · simp only [hwd, decide_false, Bool.false_eq_true, if_false]
+      rw [ha v b hm]
+
+example : unmarshalAt (α := Nat) { upgradeHeight := upgradeCodecHeight } (fun b => if b = [1] then some 7 else none)
+    (fun _ => none) upgradeCodecHeight [1] = some 7 := by decide
+
+/-- The boundary protection is tied to the *constant* 30024: when a network moves the codec upgrade
+(`UpgradeHeight = 100`, as test nets and the test-suite do), bytes written by the last amino block are
+not readable at the new upgrade height (observed on the real code: 99 → 100 fails). -/
+theorem height_switch_cross_fails_when_moved :
+    ∃ (aE pE : Bool → Option Bytes) (aD pD : Bytes → Option Bool),
+      (∀ v b, aE v = some b → aD b = some v) ∧ (∀ v b, pE v = some b → pD b = some v) ∧
+      (∀ v b, pE v = some b → aD b = none) ∧
+      ∃ v b, marshalAt { upgradeHeight := 100 } aE pE 99 v = some b ∧
+        unmarshalAt { upgradeHeight := 100 } aD pD 100 b = none := by
+  refine ⟨fun v => some [0, if v then 1 else 0], fun v => some [9, if v then 1 else 0],
+          fun b => match b with | [0, x] => some (x == 1) | _ => none,
+          fun b => match b with | [9, x] => some (x == 1) | _ => none, ?_, ?_, ?_, true, [0, 1], ?_, ?_⟩
+  · intro v b h; cases v <;> simp at h <;> subst h <;> decide
+  · intro v b h; cases v <;> simp at h <;> subst h <;> decide
+  · intro v b h; cases v <;> simp at h <;> subst h <;> decide
+  · decide
+  · decide
+
 /-! ## The generic wire interpreter -/
 
 /-- **Round trip through the protobuf codec**, for every schema with valid, pairwise distinct field
